@@ -404,21 +404,46 @@ Definition kf_C19_2 (calc : Z -> outcome pays) (recv : outcome Z) (g : gauge) : 
   g_swap g && (0 <? g_deposit g) && negb (is_ok recv) &&
   match distribute calc (g_deposit g) (g_deposit g) with Ok (Some (tot, _, _)) => 0 <? tot | _ => false end.
 
-(* does a BeginBlocker meet a known-finding class (evaluated on the state it starts from; the
-   gauges / programs that fire are those whose epoch is due) *)
-Fixpoint kf2_gauges (gs : list gauge) (fe : list farm_env) (rv : list (outcome Z)) : bool :=
+(* does a BeginBlocker meet a known-finding class: evaluated along the run, on each gauge / program
+   in the state in which it is processed, only for the epochs that are due *)
+Fixpoint kf2_pass (dur : Z) (gs : list gauge) (fe : list farm_env) (rv : list (outcome Z)) : bool :=
   match gs with
   | [] => false
-  | g :: rest => kf_C19_2 (farm_calc (hd_farm fe)) (hd_recv rv) g || kf2_gauges rest (tl fe) (tl rv)
+  | g :: rest => ((g_dur g =? dur) && kf_C19_2 (farm_calc (hd_farm fe)) (hd_recv rv) g) || kf2_pass dur rest (tl fe) (tl rv)
   end.
-Fixpoint kf3_exts (now : Z) (xs : list ext) (xe : list xenv) : bool :=
+Fixpoint kf2_epochs (now : Z) (es : list epoch) (gs : list gauge) (fe : list farm_env) (rv : list (outcome Z)) (b : bank) : bool :=
+  match es with
+  | [] => false
+  | e :: rest =>
+      match snd (epoch_tick now e) with
+      | TTrigger => kf2_pass (e_dur e) gs fe rv ||
+                    match run_gauges now (e_dur e) gs fe rv b with
+                    | Ok (gs1, b1, _) => kf2_epochs now rest gs1 fe rv b1
+                    | _ => false
+                    end
+      | _ => kf2_epochs now rest gs fe rv b
+      end
+  end.
+Fixpoint kf3_pass (kind now : Z) (xs : list ext) (xe : list xenv) : bool :=
   match xs with
   | [] => false
-  | x :: rest => kf_C19_3 now (hd_xenv xe) x || kf3_exts now rest (tl xe)
+  | x :: rest => ((x_kind x =? kind) && kf_C19_3 now (hd_xenv xe) x) || kf3_pass kind now rest (tl xe)
+  end.
+Definition kf2_begin (now : Z) (e : benv) (s : rstate) : bool :=
+  kf2_epochs now (r_epochs s) (r_gauges s) (be_farm e) (be_recv e) (r_bal s).
+Definition kf3_begin (now : Z) (e : benv) (s : rstate) : bool :=
+  match run_epochs now (r_epochs s) (r_gauges s) (be_farm e) (be_recv e) (r_bal s) with
+  | Ok (_, _, b1, _) =>
+      kf3_pass 0 now (r_exts s) (be_ext e) ||
+      match run_exts 0 now (r_exts s) (be_ext e) b1 with
+      | Ok (xs1, _, _) => kf3_pass 1 now xs1 (be_ext e)
+      | _ => false
+      end
+  | _ => false
   end.
 Definition kf_step (s : rstate) (o : gop) : bool :=
   match o with
-  | Begin now e => kf2_gauges (r_gauges s) (be_farm e) (be_recv e) || kf3_exts now (r_exts s) (be_ext e)
+  | Begin now e => kf2_begin now e s || kf3_begin now e s
   | _ => false
   end.
 (* no step of the history meets a class *)
@@ -427,6 +452,26 @@ Fixpoint run_clean (s : rstate) (ops : list gop) : bool :=
   | [] => true
   | o :: rest => negb (kf_step s o) && run_clean (rapply s o) rest
   end.
+
+(* well-formed environment values: a coin handed over by the fee transfer is not negative
+   (sdk.Coin cannot hold a negative amount) *)
+Definition recv_wf (r : outcome Z) : bool := match r with Ok v => 0 <=? v | _ => true end.
+Definition op_wf (o : gop) : bool :=
+  match o with
+  | Begin _ e => forallb recv_wf (be_recv e)
+  | _ => true
+  end.
+
+(* ---------------- the life of one gauge: any sequence of trigger attempts ---------------- *)
+(* state: gauge, module balance, total received so far; an attempt that fails changes nothing *)
+Definition life_step (st : gauge * Z * Z) (ev : Z * (Z -> outcome pays)) : gauge * Z * Z :=
+  let '(g, bal, acc) := st in
+  match trigger (fst ev) (snd ev) bal g with
+  | Ok (g', bal', paid) => (g', bal', acc + pay_total paid)
+  | _ => st
+  end.
+Definition fresh_gauge (dep total start dur denom : Z) : gauge := mkGauge dep 0 0 total true start dur false denom.
+Definition alloc_sum (sp : list Z) (k : Z) : Z := zsum (firstn (Z.to_nat k) sp).
 
 (* ---------------- property predicates on the IMPLEMENTATION's observations ---------------- *)
 Definition holds_C19_split (total epochs : Z) (sp : list Z) : bool :=
